@@ -27,7 +27,11 @@
 (*   Area          = Cardinality (for lattice-rectilinear values).          *)
 (* The property's "farther than epsilon from the input edges" is the        *)
 (* assumption CentresOffEdges: no pixel centre lies on an input edge; TLC   *)
-(* checks it for every contour the generator uses.                          *)
+(* checks it for every contour the generator uses (centres are then >= 0.35 *)
+(* away from every input edge).  By the same clause every demanded pixel    *)
+(* set is unchanged when each input vertex is displaced by less than the    *)
+(* operation's epsilon: the driver's --jitter mode replays the programs     *)
+(* with vertices displaced by < 1e-13 against the same demands.             *)
 (*                                                                          *)
 (* The module is a generator + model: TLC enumerates (BFS) or samples       *)
 (* (-simulate) straight-line programs                                       *)
@@ -137,9 +141,16 @@ Gen2(name) ==
     [] name = "TYP"   -> [ax |-> <<1,2>>, sg |-> <<1,1>>,   tr |-> <<0,1>>]
     [] name = "TYM"   -> [ax |-> <<1,2>>, sg |-> <<1,1>>,   tr |-> <<0,-1>>]
     [] name = "TPM"   -> [ax |-> <<1,2>>, sg |-> <<1,1>>,   tr |-> <<1,-1>>]  \* Transform(mat2x3 identity + (1,-1))
-AllGens2 == {"R90","R180","R270","MX","MY","SXN","SYN","SWAP","ASWAP","TXP","TXM","TYP","TYM","TPM"}
+    \* derivations that must not change the value: a CrossSection's own contours have winding 0/1, so
+    \* reading them again under either rule, or warping by the identity, gives the same pixel set
+    [] name = "REPOS" -> Id2                                                   \* CrossSection(x.ToPolygons())
+    [] name = "REEO"  -> Id2                                                   \* CrossSection::EvenOdd(x.ToPolygons())
+    [] name = "WARPID" -> Id2                                                  \* x.Warp(identity)
+    [] name = "WARPX" -> [ax |-> <<1,2>>, sg |-> <<1,1>>,   tr |-> <<1,0>>]   \* x.Warp(v.x += 1)
+AllGens2 == {"R90","R180","R270","MX","MY","SXN","SYN","SWAP","ASWAP","TXP","TXM","TYP","TYM","TPM",
+             "REPOS","REEO","WARPID","WARPX"}
 GensCore == {"R90", "MX", "TXP", "TYM"}      \* generate the whole group
-GensSome == {"R90", "R180", "MY", "SXN", "SWAP", "TXP", "TYM"}
+GensSome == {"R90", "R180", "MY", "SXN", "SWAP", "TXP", "TYM", "REEO"}
 
 (* ======================== the catalogue of contours ===================== *)
 Lat(c) == [i \in 1..Len(c) |-> << 2 * c[i][1], 2 * c[i][2] >>]   \* real lattice coordinates -> doubled
@@ -161,7 +172,13 @@ DBow   == << <<-2,-3>>, <<2,1>>, <<2,-3>>, <<-2,1>> >>          \* true X crossi
 Diam   == << <<3,0>>, <<0,3>>, <<-3,0>>, <<0,-3>> >>
 DiamL  == << <<5,0>>, <<0,5>>, <<-5,0>>, <<0,-5>> >>
 Tri    == << <<-3,0>>, <<3,0>>, <<0,3>> >>
-Specials == {RBow, RLoop2, RSpike, RPinch, RCol, RComb, DBow, Diam, DiamL, Tri}
+(* three edges concurrent in the non-dyadic point (2/3,1/3) (lines x-2y=0, x+4y=2, 2x-y=1), none through a  *)
+(* pixel centre: the crossing point is not representable, so the sweep meets a near-concurrent event        *)
+Star3  == Lat(<< <<-2,-1>>, <<2,1>>, <<2,0>>, <<-2,1>>, <<1,1>>, <<0,-1>> >>)
+TriA   == Lat(<< <<-2,-1>>, <<2,-1>>, <<2,1>> >>)      \* hypotenuse on x-2y=0
+TriB   == Lat(<< <<0,-1>>, <<1,1>>, <<0,1>> >>)        \* edge on 2x-y=1
+TriC   == Lat(<< <<2,0>>, <<-2,1>>, <<-2,0>> >>)       \* edge on x+4y=2
+Specials == {RBow, RLoop2, RSpike, RPinch, RCol, RComb, DBow, Diam, DiamL, Tri, Star3, TriA, TriB, TriC}
 CatSet == Rects \cup { Rev(c) : c \in Rects } \cup Specials \cup { Rev(c) : c \in Specials }
 Cat == SetToSeq(CatSet)                  \* the catalogue, indexed
 NCat == Len(Cat)
@@ -192,7 +209,7 @@ LeafContours(l) == [k \in 1..Len(l.ids) |-> Cat[l.ids[k]]]
 IdxOf(S) == { i \in 1..NCat : Cat[i] \in S }
 (* a small varied set for exhaustive program enumeration *)
 SmallSet == { RectCCW(-1,-1,1,1), Rev(RectCCW(0,0,2,2)), RectCCW(0,-1,2,1), RectCCW(-1,0,0,2),
-              RBow, Rev(RLoop2), RPinch, DBow, Diam }
+              RBow, Rev(RLoop2), RPinch, DBow, Diam, Star3, TriB }
 TinySet == { RectCCW(-1,-1,1,1), Rev(RectCCW(0,0,2,2)), RBow, Diam }
 (* A leaf family = which single contours and which unordered pairs of contours (with       *)
 (* repetition) may be read under which rules.  Families are given by index sets so that    *)
@@ -223,7 +240,7 @@ StairContour(s) ==
                    IF m % 2 = 0 THEN << x0 + i + 1, y0 + i + s.w >> ELSE << x0 + i, y0 + i + s.w >>  \* upper steps, leftwards
   IN Lat([k \in 1..(4 * n) |-> V(k)])
 StairParams(fam) ==
-  CASE fam = "stairMC" -> { [n |-> n, w |-> w] : n \in 1..5, w \in 1..3 }
+  CASE fam = "stairMC" -> { [n |-> n, w |-> w] : n \in 1..4, w \in 1..2 }
     [] fam = "stair"   -> { [n |-> 260, w |-> 2], [n |-> 300, w |-> 1] }
     [] fam = "stairL"  -> { [n |-> 300, w |-> 2], [n |-> 520, w |-> 1], [n |-> 400, w |-> 3] }
     [] OTHER -> {}
